@@ -140,7 +140,7 @@ def main():
         'setup_cmd': './setup.sh',
         'hooks': {
             'guard': 'RSOCKET_PY_VERIF',
-            'enable': 'no hooks are compiled into /repo: every observation is made from outside (wrapped endpoint/transport instances, recording application objects, virtual-time loop; for the traces of the repository's own test suite a pytest plugin loaded from /verif wraps three RSocketBase methods at class level for the duration of that run); the guard name is reserved and unused',
+            'enable': 'no hooks are compiled into /repo: every observation is made from outside (wrapped endpoint/transport instances, recording application objects, virtual-time loop; for the traces of the repository test suite a pytest plugin loaded from /verif wraps three RSocketBase methods at class level for the duration of that run); the guard name is reserved and unused',
             'baseline_off_cmd': BASELINE,
             'source_commits': [],
             'add_only': True,
